@@ -1394,7 +1394,7 @@ func (c *cluster) markResizeInstructionComplete(complete *ResizeInstructionCompl
 
 	// Abort the job if an error exists in the complete object.
 	if complete.Error != "" {
-		j.result <- resizeJobStateAborted
+		j.sendResult(resizeJobStateAborted)
 		return errors.New(complete.Error)
 	}
 
@@ -1409,7 +1409,7 @@ func (c *cluster) markResizeInstructionComplete(complete *ResizeInstructionCompl
 	j.IDs[complete.Node.ID] = true
 
 	if !j.nodesArePending() {
-		j.result <- resizeJobStateDone
+		j.sendResult(resizeJobStateDone)
 	}
 
 	return nil
@@ -1465,7 +1465,7 @@ func newResizeJob(existingNodes []*Node, node *Node, action string) *resizeJob {
 		ID:     rand.Int63(),
 		IDs:    ids,
 		action: action,
-		result: make(chan string),
+		result: make(chan string, 1),
 		Logger: logger.NopLogger,
 	}
 }
@@ -1487,17 +1487,28 @@ func (j *resizeJob) run() error {
 	// Job can be considered done in the case where it doesn't require any action.
 	if !j.nodesArePending() {
 		j.Logger.Printf("resizeJob contains no pending tasks; mark as done")
-		j.result <- resizeJobStateDone
+		j.sendResult(resizeJobStateDone)
 		return nil
 	}
 
 	j.Logger.Printf("distribute tasks for resizeJob")
 	err := j.distributeResizeInstructions()
 	if err != nil {
-		j.result <- resizeJobStateAborted
+		j.sendResult(resizeJobStateAborted)
 		return errors.Wrap(err, "distributing instructions")
 	}
 	return nil
+}
+
+// sendResult reports the outcome of the job to handleNodeAction, which
+// receives exactly one result per job. It never blocks: the first result
+// counts, later ones (duplicate, late or contradictory reports, reports for
+// a job that has already ended) are dropped.
+func (j *resizeJob) sendResult(result string) {
+	select {
+	case j.result <- result:
+	default:
+	}
 }
 
 // isComplete return true if the job is any one of several completion states.
